@@ -320,16 +320,19 @@ def _r11c(rep, tu):
     rep.instance("R11c", CF, "main_diagonals", str(sorted(mdset)), mdset == {(1, 1, 1), (-1, 1, 1), (1, -1, 1), (1, 1, -1)}, "main diagonals are not the four body diagonals", line=tu.line(tu.globals["main_diagonals"]))
     # Python side builds the diagonals as linear forms of the lattice vectors, in the same order
     fn = core.find_def(PY, "_get_relative_grid_addresses_from_microzone_lattice")
-    pyd = [n for n in ast.walk(fn) if isinstance(n, ast.Assign) and core.src(n.targets[0]) == "main_diagonals"]
-    if not pyd:
-        raise AnalysisError(f"{PY}: main_diagonals vanished")
-    lst = pyd[0].value
-    if isinstance(lst, ast.Call) and lst.args:
-        lst = lst.args[0]
-    if not isinstance(lst, (ast.List, ast.Tuple)):
-        raise AnalysisError(f"{PY}: main_diagonals is not a literal list of linear forms")
+    # by role: the literal list of four linear forms of the three lattice vectors (bound to a name or not); the
+    # lattice vectors are the names the columns of the argument are unpacked into
+    unp = [n for n in ast.walk(fn) if isinstance(n, ast.Assign) and isinstance(n.targets[0], ast.Tuple) and len(n.targets[0].elts) == 3 and all(isinstance(x, ast.Name) for x in n.targets[0].elts)]
+    if len(unp) != 1:
+        raise AnalysisError(f"{PY}: the lattice vectors are no longer unpacked into three names")
+    va, vb, vc = (x.id for x in unp[0].targets[0].elts)
     a, b, c = sp.symbols("a b c")
-    tr = symalg.PyTranslator({"a": a, "b": b, "c": c}, where=f"{PY}::main_diagonals")
+    tr = symalg.PyTranslator({va: a, vb: b, vc: c}, where=f"{PY}::main_diagonals")
+    cands = [n for n in ast.walk(fn) if isinstance(n, (ast.List, ast.Tuple)) and isinstance(getattr(n, "ctx", None), ast.Load) and len(n.elts) == 4 and all(isinstance(x, (ast.BinOp, ast.UnaryOp)) for x in n.elts)]
+    if len(cands) != 1:
+        raise AnalysisError(f"{PY}: main_diagonals vanished ({len(cands)} literal lists of four linear forms)")
+    lst = cands[0]
+    pyd = [lst]
     vals = []
     for e in lst.elts:
         ex = sp.expand(tr.expr(e, {}))
